@@ -14,7 +14,7 @@ CHECKS = {
    note="trusted: TLC, harness decoding, hook; age eviction exercised through real-time gaps between arrival groups (unreliable timings are discarded, never judged)",
    technique="TLA+ spec + TLC exhaustive MC; TLC-generated behaviours replayed on the real pool; TLC trace validation"),
  "C13": dict(engine="StateLedger", design_ref="DESIGN.md §3.2, §5 C13",
-   text="StateLedger.tla holds a layered model of the state ledger (dirty set, per-block origin cache, account cache, database, state changer, block journals) and a flat property-level ghost; TLC checks exhaustively within small bounds that every possible read, prefix query, revert and rollback of the layered model answers like the ghost. The real SimpleLedger on leveldb is driven by seeded op plans (transaction-shaped snapshot/write/revert/finalise groups, AddState, balances, code, flush/commit, reopen, rollback) and TLC validates the recorded answers against the ghost (verdict) and the layered model (drift) at every step.",
+   text="StateLedger.tla holds a layered model of the state ledger (dirty set, per-block origin cache, account cache, database, state changer, block journals) and a flat property-level ghost; TLC checks exhaustively within small bounds that every possible read, prefix query, revert and rollback of the layered model answers like the ghost. The real SimpleLedger on leveldb is driven by seeded op plans (transaction-shaped snapshot/write/revert/finalise groups, AddState, balances, code, flush/commit, reopen, rollback) and TLC validates the recorded answers against the ghost (verdict) and the layered model (drift) at every step. The found flag a read returns next to the value is part of the model (empty values are carried through the layers, SFound): StateLedgerMC checks Inv_C13_StableExistence (reopening a ledger with nothing uncommitted changes no found flag; violated with FoundFix = FALSE) and on traces C13_StableExistence compares the flag of every read with the previous read of the same slot while only reads, Flush, Commit and Reopen happened in between.",
    note="trusted: TLC, harness/cmd/ledgeradp decoding (nil and empty values conflated); account-cache eviction not reachable (compile-time LRU sizes)",
    technique="TLA+ spec + TLC exhaustive MC of layered model vs. ghost; TLC trace validation of the real ledger"),
  "C12": dict(engine="StateLedger", design_ref="DESIGN.md §3.2, §5 C12",
@@ -39,7 +39,7 @@ CHECKS = {
    technique="TLA+ spec + TLC exhaustive MC; TLC trace validation of the real executor"),
  "C02": dict(engine="Interchain", design_ref="DESIGN.md §3.5, §5 C02",
    text="Interchain.tla is the protocol machine of IBTP handling (acceptance rule, counters, one-to-one and grouped transaction records, expiry at block end), model-checked exhaustively over bounded request / receipt / empty-block sequences. The real executor runs seeded interchain scenarios on a lockstep node pair; TLC binds acceptance to each receipt, judges every accepted IBTP (C02_InOrder, C02_ReceiptInOrder, C02_ReceiptAfterRequest), and after every block compares the four observed counters of every service with the machine (C02_CountersEqualHistory) and the block's delivery metadata with the accepted requests (C02_DeliveredOnce, C02_DeliveredOnlyAccepted); rejected IBTPs must leave no state delta (C07 formulas on the same traces).",
-   note="trusted: TLC, harness/core + interadp decoding; other-BitXHub traffic only as unavailable destination / rejected source; unordered (batch) destinations excluded from the order clause",
+   note="trusted: TLC, harness/core + interadp decoding; other-BitXHub traffic only as unavailable destination / rejected source; unordered (batch) destinations excluded from the order clause; judged on ordered pairs (for an unordered destination the mirrored counter records the last index by design); cross-hub pairs included",
    technique="TLA+ protocol machine + TLC exhaustive MC; TLC trace validation of the real executor"),
  "C03": dict(engine="Interchain", design_ref="DESIGN.md §3.5, §5 C03",
    text="Interchain.tla decides every proof itself (ProofOK): an IBTP is proven by the hub its category points at; on this hub the proof bytes must hash to the committed value and satisfy the rule bound to the appchain (observed: the stored rule whose status is available; RuleOK for the accept-all rule and for the real simplified-Fabric rule over logged artifact labels: index, chaincode, call, signature validity, endorser vs registered trust root); on another BitXHub more than (n-1)/3 DISTINCT REGISTERED validators must have signed this very ibtp and status (MsOK over logged signer labels). The harness builds real secp256k1 multi-signature proofs and real endorsed Fabric artifacts; an accepted IBTP whose proof the specification rejects violates C03_Gate / C03_MultiSign; a failed one must leave no state delta beyond nonce and fee (sibling-node diff); direct invocations of HandleIBTPData and of the transaction-manager entry points by external accounts must not change counters, records or delivery metadata. InterchainXMC.tla model-checks the machine between two hubs with the threshold restated in rational arithmetic (3*signers > n-1).",
@@ -62,7 +62,7 @@ CHECKS = {
    note="trusted: TLC, harness; status machines of rules, roles and nodes are not transcribed (rules: only which rule is bound is observed; roles: C15); blacklist permission not driven yet",
    technique="TLA+ protocol machine gating clauses; TLC trace validation of the real executor"),
  "C01": dict(engine="Replicas", design_ref="DESIGN.md §3.8, §5 C01",
-   text="Replicas.tla states agreement; ReplicasMC enumerates all placements of stop / start / view steps of 3 replicas over a chain. Every interchain scenario (random, group-heavy, timed; IBTP one-to-one and grouped, governance, transfers, failing transactions) is executed on a reference node and three perturbed real replicas (restart before every block + parallel proof goroutines; serial + view execution before every block; reopen right after genesis + random restarts), all fed byte-identical blocks; TLC compares block hash, parent, state / tx / receipt / timeout roots, every receipt and the ordered delivery / timeout / multi-tx metadata of every height.",
+   text="Replicas.tla states agreement; ReplicasMC enumerates all placements of stop / start / view steps of 3 replicas over a chain. Every interchain scenario (random, group-heavy, timed; IBTP one-to-one and grouped, governance, transfers, failing transactions) is executed on a reference node and three perturbed real replicas (restart before every block + parallel proof goroutines; serial + view execution before every block; reopen right after genesis + random restarts), all fed byte-identical blocks; TLC compares block hash, parent, state / tx / receipt / timeout roots, every receipt and the ordered delivery / timeout / multi-tx metadata of every height. Scenarios include inter-BitXHub traffic with real multi-signature proofs, Fabric-rule scenarios and unordered services; on the first divergence of a replica's state root the stored entries that differ are logged (diagnosis, not judged).",
    note="trusted: TLC, harness digest; map-iteration order and goroutine schedules are sampled by repetition; XVM/EVM transactions not in the corpus",
    technique="TLA+ agreement spec; multi-replica real-code traces validated by TLC"),
  "C20": dict(engine="Ordering", design_ref="DESIGN.md §3.9, §5 C20; spec/Ordering.README.md",
